@@ -198,6 +198,14 @@ func (m *model) judge(isTick bool, slot int, log []rec, held map[[2]int]bool) (*
 		m.prune(slot)
 		snap = m.fetched[k.unitOfSlot(slot)]
 	}
+	// overrun: a fetch of this tick returned after the next slot had begun; a role without
+	// tolerance may (must, if it executes after that fetch) skip the duties of the tick's slot
+	overrun := false
+	for _, r := range log {
+		if isTick && r.kind == recFetch && r.clock > slot {
+			overrun = true
+		}
+	}
 	count := map[string]int{}
 	dkey := func(role spectypes.BeaconRole, v int) string { return fmt.Sprintf("%s/%d", role.String(), v) }
 	var viol *violation
@@ -238,6 +246,11 @@ func (m *model) judge(isTick bool, slot int, log []rec, held map[[2]int]bool) (*
 			}
 			if !isTick {
 				fail("dispatch-outside-tick", "%s duty of validator %d for slot %d dispatched while processing a non-tick event (clock %d)", r.role, r.v, r.slot, slot)
+				continue
+			}
+			if r.clock-r.slot > k.window() {
+				// (a slow fetch earlier in this tick has moved the clock past the duty's slot)
+				fail("dispatch-outside-window", "%s duty of validator %d for slot %d dispatched while the clock is already at slot %d, outside the role's window", r.role, r.v, r.slot, r.clock)
 				continue
 			}
 			if r.slot != slot {
@@ -307,6 +320,8 @@ func (m *model) judge(isTick bool, slot int, log []rec, held map[[2]int]bool) (*
 			for _, ro := range k.roles() {
 				n := count[dkey(ro, v)]
 				switch {
+				case n == 0 && overrun && k.window() == 0:
+					labels = append(labels, "not-dispatched/fetch-overran-the-slot(window closed)")
 				case n >= 1 && obligated && !snap.dirty:
 					labels = append(labels, "dispatched/obligated")
 				case n >= 1 && obligated:
